@@ -500,8 +500,61 @@ def rule_number_ident(chk, prog, tier):
     r.exhaustive = True
 
 
+# ------------------------------------------------------------------ C13.d comments
+
+def rule_comments(chk, prog, tier):
+    r = chk.rule('C13.d', 'after a `/`, comment() consumes exactly a // comment up to (not including) the newline or a /* comment up to and including the first */ that follows the opening (the opening star cannot also close it), reports an unterminated comment, and consumes nothing otherwise',
+                 floor=1000, oracle='C11 6.4.9')
+    import itertools, par
+    fn = prog.require_func('comment', 'scan.c')
+    AL = '/*a\n'
+    maxlen = 6 if tier == 'thorough' else 5
+    strs = ['']
+    for n in range(1, maxlen + 1):
+        strs += [''.join(p) for p in itertools.product(AL, repeat=n)]
+    chunks = [strs[k::32] for k in range(32)]
+    def work(chunk):
+        out = []
+        for st in chunk:
+            def runner(it):
+                it.MAX_STEPS = 20000
+                s = Obj('scanner', 'heap'); pos = {'i': 0}
+                s.f[('chr',)] = ord(st[0]) if st else -1; s.f[('usebuf',)] = 0; s.f[('sawspace',)] = 0
+                s.f[('loc', 'file')] = None; s.f[('loc', 'line')] = 1; s.f[('loc', 'col')] = 1
+                def nextchar(i2, a, e):
+                    pos['i'] += 1
+                    i2.assign(s, ('chr',), ord(st[pos['i']]) if pos['i'] < len(st) else -1); return None
+                it.models['nextchar'] = nextchar
+                it.models['error'] = lambda i2, a, e: (_ for _ in ()).throw(Terminal('error', cmodel.fmt_of(i2, a, 1)))
+                res = it.call(fn, [Ptr(s, ())])
+                return bool(res), min(pos['i'], len(st)), s.f[('sawspace',)]
+            try:
+                runs = explore(prog, runner, {}, max_runs=4, on_unsupported='keep')
+                out.append((st, runs[0].outcome, runs[0].value if runs[0].outcome == 'return' else str(runs[0].detail)))
+            except AnalysisBroken as x:
+                out.append((st, 'broken', str(x)))
+        return out
+    for res in par.pmap(work, chunks):
+        for st, outcome, val in res:
+            key = 'comment:/%s<EOF>' % st.replace('\n', '\\n')
+            if outcome in ('unsupported',) or (outcome == 'broken' and 'budget' not in val):
+                raise AnalysisBroken('comment(%r): %s' % (st, val))
+            if st[:1] == '/':
+                j = st.find('\n')
+                want = ('return', (True, j if j >= 0 else len(st), 1))
+            elif st[:1] == '*':
+                j = st.find('*/', 1)
+                want = ('return', (True, j + 2, 1)) if j >= 0 else ('terminal:error', None)
+            else:
+                want = ('return', (False, 0, 0))
+            ok = outcome == want[0] and (want[1] is None or val == want[1])
+            r.instance(ok, key, 'scan.c:%s' % fn.get('line'), 'expected %s, got %s %s' % (want, outcome, val))
+    r.exhaustive = True
+
+
 def run(chk, tier):
     prog = facts.programs()['cproc-qbe']
     chk.guard('C13.a', lambda: rule_punct(chk, prog, tier))
     chk.guard('C13.b', lambda: rule_number_ident(chk, prog, tier))
     chk.guard('C13.c', lambda: rule_keywords(chk, prog, tier))
+    chk.guard('C13.d', lambda: rule_comments(chk, prog, tier))
